@@ -13,53 +13,57 @@ pub open spec fn derives(pr: Seq<Pr>, a: Seq<Symbol>, b: Seq<Symbol>, n: nat) ->
 pub open spec fn in_lang(pr: Seq<Pr>, st: Seq<char>, w: Seq<Symbol>) -> bool {
     exists|s0: Symbol, n: nat| nt_occurs(s0, st) && derives(pr, seq![s0], w, n)
 }
-pub open spec fn aug_shape(small: Seq<Pr>, st: Seq<char>, big: Seq<Pr>, s1: Seq<char>) -> bool {
-    big.len() == small.len() + 1 && big.skip(1) == small && big[0].lhs() == s1 && big[0].rhs().len() == 1 && nt_occurs(big[0].rhs()[0], st)
+/// big is small with ONE production S' -> S inserted at position k (any position), S' fresh
+pub open spec fn aug_shape(small: Seq<Pr>, st: Seq<char>, big: Seq<Pr>, s1: Seq<char>, k: int) -> bool {
+    0 <= k < big.len() && big.len() == small.len() + 1 && big.remove(k) == small
+    && big[k].lhs() == s1 && big[k].rhs().len() == 1 && nt_occurs(big[k].rhs()[0], st)
     && s1 != st && (forall|i: int| 0 <= i < small.len() ==> #[trigger] small[i].lhs() != s1) && !occurs_on_rhs(small, s1)
 }
-proof fn step_mono(small: Seq<Pr>, big: Seq<Pr>, a: Seq<Symbol>, b: Seq<Symbol>)
-    requires big.len() == small.len() + 1, big.skip(1) == small, step(small, a, b)
+proof fn step_mono(small: Seq<Pr>, big: Seq<Pr>, k: int, a: Seq<Symbol>, b: Seq<Symbol>)
+    requires 0 <= k < big.len(), big.len() == small.len() + 1, big.remove(k) == small, step(small, a, b)
     ensures step(big, a, b)
 {
     let (p, i) = choose|p: int, i: int| step_at(small, a, b, p, i);
-    assert(big.skip(1)[p] == big[p + 1]);
-    assert(step_at(big, a, b, p + 1, i));
+    let q = if p < k { p } else { p + 1 };
+    assert(big.remove(k)[p] == big[q]);
+    assert(step_at(big, a, b, q, i));
 }
-proof fn derives_mono(small: Seq<Pr>, big: Seq<Pr>, a: Seq<Symbol>, b: Seq<Symbol>, n: nat)
-    requires big.len() == small.len() + 1, big.skip(1) == small, derives(small, a, b, n)
+proof fn derives_mono(small: Seq<Pr>, big: Seq<Pr>, k: int, a: Seq<Symbol>, b: Seq<Symbol>, n: nat)
+    requires 0 <= k < big.len(), big.len() == small.len() + 1, big.remove(k) == small, derives(small, a, b, n)
     ensures derives(big, a, b, n)
     decreases n
 {
     if n > 0 {
         let mid = choose|mid: Seq<Symbol>| step(small, a, mid) && derives(small, mid, b, (n - 1) as nat);
-        step_mono(small, big, a, mid);
-        derives_mono(small, big, mid, b, (n - 1) as nat);
+        step_mono(small, big, k, a, mid);
+        derives_mono(small, big, k, mid, b, (n - 1) as nat);
     }
 }
-proof fn step_back(small: Seq<Pr>, st: Seq<char>, big: Seq<Pr>, s1: Seq<char>, a: Seq<Symbol>, b: Seq<Symbol>)
-    requires aug_shape(small, st, big, s1), no_nt(a, s1), step(big, a, b)
+proof fn step_back(small: Seq<Pr>, st: Seq<char>, big: Seq<Pr>, s1: Seq<char>, k: int, a: Seq<Symbol>, b: Seq<Symbol>)
+    requires aug_shape(small, st, big, s1, k), no_nt(a, s1), step(big, a, b)
     ensures step(small, a, b), no_nt(b, s1)
 {
     let (p, i) = choose|p: int, i: int| step_at(big, a, b, p, i);
-    if p == 0 { assert(nt_occurs(a[i], s1)); assert(false); }
-    assert(big.skip(1)[p - 1] == big[p]);
-    assert(step_at(small, a, b, p - 1, i));
-    let r = small[p - 1].rhs();
+    if p == k { assert(nt_occurs(a[i], s1)); assert(false); }
+    let q = if p < k { p } else { p - 1 };
+    assert(big.remove(k)[q] == big[p]);
+    assert(step_at(small, a, b, q, i));
+    let r = small[q].rhs();
     assert forall|x: int| 0 <= x < b.len() implies !nt_occurs(#[trigger] b[x], s1) by {
         if x < i { assert(b[x] == a[x]); }
         else if x < i + r.len() { assert(b[x] == r[x - i]); if nt_occurs(r[x - i], s1) { assert(occurs_on_rhs(small, s1)); } }
         else { assert(b[x] == a[x - r.len() + 1]); }
     }
 }
-proof fn derives_back(small: Seq<Pr>, st: Seq<char>, big: Seq<Pr>, s1: Seq<char>, a: Seq<Symbol>, b: Seq<Symbol>, n: nat)
-    requires aug_shape(small, st, big, s1), no_nt(a, s1), derives(big, a, b, n)
+proof fn derives_back(small: Seq<Pr>, st: Seq<char>, big: Seq<Pr>, s1: Seq<char>, k: int, a: Seq<Symbol>, b: Seq<Symbol>, n: nat)
+    requires aug_shape(small, st, big, s1, k), no_nt(a, s1), derives(big, a, b, n)
     ensures derives(small, a, b, n)
     decreases n
 {
     if n > 0 {
         let mid = choose|mid: Seq<Symbol>| step(big, a, mid) && derives(big, mid, b, (n - 1) as nat);
-        step_back(small, st, big, s1, a, mid);
-        derives_back(small, st, big, s1, mid, b, (n - 1) as nat);
+        step_back(small, st, big, s1, k, a, mid);
+        derives_back(small, st, big, s1, k, mid, b, (n - 1) as nat);
     }
 }
 /// the only step possible from a one-symbol form [s0]: position 0, giving exactly the right-hand side of the production used
@@ -73,8 +77,8 @@ proof fn step_single(pr: Seq<Pr>, s0: Symbol, mid: Seq<Symbol>) -> (p: int)
     p
 }
 /// THEOREM: a grammar augmented by one fresh unit start production S' -> S generates the language of the original grammar
-pub proof fn lang_preserved(small: Seq<Pr>, st: Seq<char>, big: Seq<Pr>, s1: Seq<char>, s1_sym: Symbol, w: Seq<Symbol>)
-    requires aug_shape(small, st, big, s1), nt_occurs(s1_sym, s1), is_sentence(w)
+pub proof fn lang_preserved(small: Seq<Pr>, st: Seq<char>, big: Seq<Pr>, s1: Seq<char>, k: int, s1_sym: Symbol, w: Seq<Symbol>)
+    requires aug_shape(small, st, big, s1, k), nt_occurs(s1_sym, s1), is_sentence(w)
     ensures in_lang(big, s1, w) <==> in_lang(small, st, w)
 {
     if in_lang(big, s1, w) {
@@ -82,11 +86,11 @@ pub proof fn lang_preserved(small: Seq<Pr>, st: Seq<char>, big: Seq<Pr>, s1: Seq
         if n == 0 { assert(seq![s0][0] == w[0]); assert(false); }
         let mid = choose|mid: Seq<Symbol>| step(big, seq![s0], mid) && derives(big, mid, w, (n - 1) as nat);
         let p = step_single(big, s0, mid);
-        if p > 0 { assert(big.skip(1)[p - 1] == big[p]); assert(false); }
-        let x = big[0].rhs()[0];
+        if p != k { let q = if p < k { p } else { p - 1 }; assert(big.remove(k)[q] == big[p]); assert(false); }
+        let x = big[k].rhs()[0];
         assert(mid =~= seq![x]);
         assert(no_nt(mid, s1));
-        derives_back(small, st, big, s1, mid, w, (n - 1) as nat);
+        derives_back(small, st, big, s1, k, mid, w, (n - 1) as nat);
         assert(in_lang(small, st, w));
     }
     if in_lang(small, st, w) {
@@ -94,13 +98,13 @@ pub proof fn lang_preserved(small: Seq<Pr>, st: Seq<char>, big: Seq<Pr>, s1: Seq
         if n == 0 { assert(seq![s0][0] == w[0]); assert(false); }
         let mid = choose|mid: Seq<Symbol>| step(small, seq![s0], mid) && derives(small, mid, w, (n - 1) as nat);
         let p = step_single(small, s0, mid);
-        let x = big[0].rhs()[0];
+        let x = big[k].rhs()[0];
         // the same production applies to the representation x of S that the new start production names
         assert(step_at(small, seq![x], mid, p, 0)) by { assert(seq![x].take(0) + small[p].rhs() + seq![x].skip(1) =~= small[p].rhs()); }
         assert(step(small, seq![x], mid));
         assert(derives(small, seq![x], w, n));
-        derives_mono(small, big, seq![x], w, n);
-        assert(step_at(big, seq![s1_sym], seq![x], 0, 0)) by { assert(seq![s1_sym].take(0) + big[0].rhs() + seq![s1_sym].skip(1) =~= seq![x]); }
+        derives_mono(small, big, k, seq![x], w, n);
+        assert(step_at(big, seq![s1_sym], seq![x], k, 0)) by { assert(seq![s1_sym].take(0) + big[k].rhs() + seq![s1_sym].skip(1) =~= seq![x]); }
         assert(step(big, seq![s1_sym], seq![x]));
         assert(((n + 1) - 1) as nat == n);
         assert(derives(big, seq![s1_sym], w, n + 1));
